@@ -377,7 +377,6 @@ Proof.
   destruct (key_eqb k' k); [discriminate|]. auto.
 Qed.
 
-Definition not_clo (d : dval) : Prop := match d with DF _ => False | _ => True end.
 Definition is_DV (d : dval) : Prop := match d with DV _ => True | _ => False end.
 
 (* ------------------------------------------------------------------------------------------ *)
@@ -400,15 +399,8 @@ Section Chain.
   Notation Sem_node := (sem_node msem dotsem callsem).
   Notation Sem_nodes := (sem_nodes msem dotsem callsem).
 
-  (* HYPOTHESES on the abstract user-code semantics.
-     A `DF` is a closure GENERATED by the macro (`|__v| ..`); user code receives such closures as
-     arguments but a user method / member access / call never hands one back as its result.
-     (Needed for sync `??` only: `__inspect(f, recv)` with a closure as `recv` would first call
-     `f(&recv)` whereas Spec.inspect_sem is ill-typed at once; see REFINE_NOTES.md.) *)
-  Hypothesis msem_nc : forall m tf r ds, leaves not_clo (msem m tf r ds).
-  Hypothesis dotsem_nc : forall o sn r, leaves not_clo (dotsem o sn r).
-  Hypothesis callsem_nc : forall f ds, leaves not_clo (callsem f ds).
-  (* the user's `let` names do not start with `__` *)
+  (* No hypothesis on the abstract user-code semantics `msem dotsem callsem awaitsem`.
+     The user's `let` names do not start with `__`: *)
   Hypothesis unames_user : Forall user_ident unames.
 
   Lemma gname_not_uname g : ~ In (gname_str g) unames.
@@ -466,40 +458,30 @@ Section Chain.
   Lemma exec_inspect_fn ρ : X inspect_fn ρ = Ret (upd ρ n_inspect (DFn inspect_clo)).
   Proof. reflexivity. Qed.
 
-  Definition callable (f : dval) : Prop := match f with DV _ | DF _ => True | _ => False end.
-
-  Lemma apply_nc f ds : leaves not_clo (app_d f ds).
+  (* the fn item `__inspect` IS Spec.inspect_sem - for every callback and every receiver, also the
+     ill-typed ones: a receiver that is a generated closure is shown to the callback (`__h(&__v)`) and
+     only fails when it is returned (`__v`, to_val); futures / items / builders are not arguments at all *)
+  Lemma apply_inspect f r : app_d (DFn inspect_clo) [f; r] = inspect_sem callsem f r.
   Proof.
-    unfold apply. destruct f as [fv|g|g| | | |].
-    - destruct (all_vals ds); [|apply callsem_nc]. constructor. intros v. constructor. exact I.
-    - destruct (all_vals ds); [|constructor]. eapply leaves_bind; [apply leaves_True|]. intros; constructor; exact I.
-    - destruct (all_cargs ds); [|constructor]. eapply leaves_bind; [apply leaves_True|]. intros; constructor; exact I.
-    - constructor.
-    - constructor.
-    - destruct ds as [|[[]| | | | | |] [|]]; try apply L_Panic. unfold thread_builder. constructor. intros cur.
-      destruct (tb_name cur _); constructor. exact I.
-    - destruct ds as [|[]  [|]]; try apply L_Panic; constructor; exact I.
-  Qed.
-
-  Lemma apply_inspect f r : callable f -> not_clo r ->
-    app_d (DFn inspect_clo) [f; r] = inspect_sem callsem f r.
-  Proof.
-    intros Hf Hr.
-    assert (Hv : forall (cf : carg) (v : val) (fd : dval),
-               fd = match cf with CV w => DV w | CF g => DF g end -> callable fd ->
-               (let! v0 := inspect_clo [cf; CV v] in Ret (DV v0)) = (let! _ := app_d fd [DV v] in Ret (DV v))).
-    { intros cf v fd -> Hc. unfold inspect_clo. cbn [bind_params].
-      set (ρf := upd (upd empty_env n_h _) n_v (DV v)).
-      assert (Hh : ρf n_h = Some (match cf with CV w => DV w | CF g => DF g end)).
+    assert (Hb : forall (cf cr : carg),
+               inspect_clo [cf; cr] =
+               (let! _ := app_d (match cf with CV w => DV w | CF g => DF g end)
+                                [match cr with CV w => DV w | CF g => DF g end] in
+                to_val (match cr with CV w => DV w | CF g => DF g end))).
+    { intros cf cr. unfold inspect_clo. cbn [bind_params].
+      set (fd := match cf with CV w => DV w | CF g => DF g end).
+      set (rd := match cr with CV w => DV w | CF g => DF g end).
+      set (ρf := upd (upd empty_env n_h fd) n_v rd).
+      assert (Hh : ρf n_h = Some fd).
       { unfold ρf. rewrite upd_other by (rewrite n_h_g, n_v_g; apply gname_neq; discriminate). apply upd_same. }
-      assert (Hvv : ρf n_v = Some (DV v)) by apply upd_same.
+      assert (Hvv : ρf n_v = Some rd) by apply upd_same.
       unfold inspect_body. rewrite den_RBlock, execs_cons, exec_SExpr, den_RCall_var, den_RVar, Hh.
       rewrite dens_cons, den_RRef, den_RVar, Hvv, dens_nil. cbn [execs]. nb.
-      apply bind_ext. intros _. nb. rewrite den_RVar, Hvv. reflexivity. }
+      apply bind_ext. intros _. nb. rewrite den_RVar, Hvv. nb. reflexivity. }
     unfold apply at 1.
-    destruct f as [fv|g| | | | |]; try contradiction; destruct r as [v|g'| | | | |]; try contradiction;
-      cbn [all_cargs inspect_sem]; try reflexivity.
-    all: match goal with |- context [inspect_clo [?cf; _]] => apply (Hv cf); [reflexivity|exact I] end.
+    destruct f as [fv|g| | | | |]; destruct r as [v|g'| | | | |]; cbn [all_cargs inspect_sem]; try reflexivity.
+    all: rewrite Hb; nb; try reflexivity.
+    all: apply bind_ext; intros _; reflexivity.
   Qed.
 
   (* ---- operands ---- *)
@@ -547,48 +529,6 @@ Section Chain.
         + destruct (lookup_cap cp (b, e, i)); constructor. exact I.
         + constructor. intros v. constructor. exact I.
       - intros d Hd. eapply leaves_bind; [apply IH|]. intros ds Hds. constructor. constructor; assumption.
-    Qed.
-
-    (* ---- results of a node are never generated closures ---- *)
-    Lemma leaves_bind_any {A B} (Q : B -> Prop) (c : comp A) (f : A -> comp B) :
-      (forall a, leaves Q (f a)) -> leaves Q (bind c f).
-    Proof. intros H. eapply leaves_bind; [apply leaves_True|]. intros a _. apply H. Qed.
-
-    Lemma inspect_sem_nc f r : leaves not_clo (inspect_sem callsem f r).
-    Proof.
-      unfold inspect_sem.
-      destruct f, r; try apply L_Panic; apply leaves_bind_any; intros; apply L_Ret; exact I.
-    Qed.
-
-    Lemma sem_node_nc n recv : leaves not_clo (Sem_node async sn cp b n recv).
-    Proof.
-      destruct n as [e a|e a inner].
-      - cbn [sem_node].
-        destruct (a_comb a);
-          try (apply leaves_bind_any; intros r; apply leaves_bind_any; intros ds; apply msem_nc).
-        + (* Dot *) destruct (a_ops a) as [|o [|]]; try constructor. apply leaves_bind_any; intros; apply dotsem_nc.
-        + (* Inspect *)
-          destruct async.
-          * apply leaves_bind_any; intros r; apply leaves_bind_any; intros ds.
-            destruct ds as [|f [|]]; try constructor. apply msem_nc.
-          * apply leaves_bind_any; intros ds. destruct ds as [|f [|]]; try constructor.
-            apply leaves_bind_any; intros r. apply inspect_sem_nc.
-        + (* Then *)
-          apply leaves_bind_any; intros ds. destruct ds as [|f [|]]; try constructor.
-          apply leaves_bind_any; intros r. apply apply_nc.
-        + (* Initial *)
-          eapply leaves_bind; [apply eval_args_DV|]. intros ds Hds.
-          destruct ds as [|x [|]]; try constructor. inversion Hds; subst. destruct x; try contradiction. exact I.
-        + (* UNWRAP *) constructor.
-      - rewrite sem_node_NWrap.
-        destruct (a_comb a); try (apply leaves_bind_any; intros r; apply msem_nc).
-        destruct async; apply leaves_bind_any; intros r; [apply msem_nc|apply inspect_sem_nc].
-    Qed.
-
-    Lemma sem_nodes_nc : forall t recv, leaves not_clo recv -> leaves not_clo (Sem_nodes async sn cp b t recv).
-    Proof.
-      induction t as [|x t IH]; intros recv H; [exact H|].
-      rewrite sem_nodes_cons. apply IH. apply sem_node_nc.
     Qed.
 
     (* ---- what a successful rendering of one node did ---- *)
@@ -667,16 +607,12 @@ Section Chain.
         split; [reflexivity|]. split; [reflexivity|]. constructor. intros v. constructor. exact I.
     Qed.
 
-    Lemma is_DV_callable d : is_DV d -> callable d.
-    Proof. destruct d; cbn; auto. Qed.
-
     Lemma NAct_sem ρ e a s s' :
       chain_env ρ -> covers (node_keys b (NAct e a)) ->
       expand cfg s (a_comb a) (op_args b e 0 (a_comb a) (exprs_of a)) (a_ops a) = Ok s' ->
-      leaves not_clo (D s ρ) ->
       D s' ρ = Sem_node async sn cp b (NAct e a) (D s ρ).
     Proof.
-      intros Hρ Hcov He Hnc. cbn [node_keys] in Hcov.
+      intros Hρ Hcov He. cbn [node_keys] in Hcov.
       pose proof (dens_op_args ρ e (a_comb a) Hρ (exprs_of a) 0 Hcov) as Hargs.
       pose proof (fun o => arg1_sem ρ e (a_comb a) o Hρ) as H1.
       pose proof (op_args_length b e (a_comb a) (exprs_of a) 0) as Hlen.
@@ -697,9 +633,9 @@ Section Chain.
         + rewrite den_RMeth, dens_cons, dens_nil, HA. nb. apply bind_ext. intros r. nb. reflexivity.
         + rewrite den_RCall_var, den_RVar, (ce_inspect ρ Hρ Easync). nb.
           rewrite !dens_cons, dens_nil, HA. nb.
-          eapply bind_ext_leaves; [exact HL|]. intros d Hd. nb.
-          eapply bind_ext_leaves; [exact Hnc|]. intros r Hr. nb.
-          apply apply_inspect; [apply is_DV_callable; exact Hd|exact Hr].
+          apply bind_ext. intros d. nb.
+          apply bind_ext. intros r. nb.
+          apply apply_inspect.
       - (* Then *)
         destruct args as [|f [|]] eqn:Ea; try discriminate.
         destruct (exprs_of a) as [|o [|]]; try discriminate. subst args. cbn [op_args] in Ea.
@@ -721,11 +657,10 @@ Section Chain.
     Lemma NWrap_sem ρ e a inner body s s' :
       chain_env ρ -> can_be_wrapper (a_comb a) = true ->
       expand cfg s (a_comb a) [wrapper_closure cfg body] (a_ops a) = Ok s' ->
-      leaves not_clo (D s ρ) ->
       (forall v, D body (upd ρ n_v (DV v)) = Sem_nodes async sn cp b inner (Ret (DV v))) ->
       D s' ρ = Sem_node async sn cp b (NWrap e a inner) (D s ρ).
     Proof.
-      intros Hρ Hw He Hnc IH.
+      intros Hρ Hw He IH.
       assert (Hclo : D (wrapper_closure cfg body) ρ = Ret (wrap_clo async sn cp b inner)).
       { rewrite den_wrapper_closure, den_RClosure. unfold wrap_clo. f_equal. f_equal. extensionality vs.
         destruct vs as [|v [|]]; try reflexivity. rewrite IH. reflexivity. }
@@ -737,8 +672,8 @@ Section Chain.
       - rewrite den_RMeth, dens_cons, Hclo, dens_nil. nb. reflexivity.
       - rewrite den_RCall_var, den_RVar, (ce_inspect ρ Hρ Easync). nb.
         rewrite !dens_cons, dens_nil, Hclo. nb.
-        eapply bind_ext_leaves; [exact Hnc|]. intros r Hr. nb.
-        apply apply_inspect; [exact I|exact Hr].
+        apply bind_ext. intros r. nb.
+        apply apply_inspect.
     Qed.
 
     Lemma covers_app k1 k2 : covers (k1 ++ k2) -> covers k1 /\ covers k2.
@@ -748,40 +683,38 @@ Section Chain.
 
     Lemma render_nodes_sem : forall t ds s ds' s' ρ,
       render_nodes cfg b t (ds, s) = Ok (ds', s') -> nodes_ok t -> chain_env ρ ->
-      covers (nodes_keys b t) -> leaves not_clo (D s ρ) ->
+      covers (nodes_keys b t) ->
       D s' ρ = Sem_nodes async sn cp b t (D s ρ).
     Proof.
       apply (nodes_ind2
         (fun n => forall ds s ds' s' ρ,
            render_node cfg b n (ds, s) = Ok (ds', s') -> node_ok n -> chain_env ρ ->
-           covers (node_keys b n) -> leaves not_clo (D s ρ) ->
+           covers (node_keys b n) ->
            D s' ρ = Sem_node async sn cp b n (D s ρ))
         (fun t => forall ds s ds' s' ρ,
            render_nodes cfg b t (ds, s) = Ok (ds', s') -> nodes_ok t -> chain_env ρ ->
-           covers (nodes_keys b t) -> leaves not_clo (D s ρ) ->
+           covers (nodes_keys b t) ->
            D s' ρ = Sem_nodes async sn cp b t (D s ρ))).
-      - intros e a ds s ds' s' ρ H Hok Hρ Hcov Hnc.
+      - intros e a ds s ds' s' ρ H Hok Hρ Hcov.
         destruct (render_NAct_inv e a ds s ds' s' H Hok) as [_ He].
         apply NAct_sem; assumption.
-      - intros e a inner IH ds s ds' s' ρ H Hok Hρ Hcov Hnc.
+      - intros e a inner IH ds s ds' s' ρ H Hok Hρ Hcov.
         rewrite node_ok_NWrap in Hok. destruct Hok as [Hw Hin].
         destruct (render_NWrap_inv _ _ _ _ _ _ _ H Hw) as (body & Hr & He).
         eapply NWrap_sem; eauto.
         intros v. rewrite node_keys_NWrap in Hcov.
         assert (Hv : D (RVar n_v) (upd ρ n_v (DV v)) = Ret (DV v)) by (rewrite den_RVar, upd_same; reflexivity).
         rewrite <- Hv. eapply IH; eauto.
-        + apply chain_env_upd_v. exact Hρ.
-        + rewrite Hv. constructor. exact I.
-      - intros ds s ds' s' ρ H _ _ _ _. rewrite render_nodes_nil in H. inversion H. reflexivity.
-      - intros x r IHx IHr ds s ds' s' ρ H Hok Hρ Hcov Hnc.
+        apply chain_env_upd_v. exact Hρ.
+      - intros ds s ds' s' ρ H _ _ _. rewrite render_nodes_nil in H. inversion H. reflexivity.
+      - intros x r IHx IHr ds s ds' s' ρ H Hok Hρ Hcov.
         rewrite nodes_ok_cons in Hok. destruct Hok as [Hx Hr].
         rewrite nodes_keys_cons in Hcov. apply covers_app in Hcov. destruct Hcov as [Hc1 Hc2].
         rewrite render_nodes_cons in H.
         destruct (render_node cfg b x (ds, s)) as [[ds1 s1]| |] eqn:E1; cbn [rbind] in H; try discriminate.
         rewrite sem_nodes_cons.
-        rewrite <- (IHx _ _ _ _ _ E1 Hx Hρ Hc1 Hnc).
+        rewrite <- (IHx _ _ _ _ _ E1 Hx Hρ Hc1).
         eapply IHr; eauto.
-        rewrite (IHx _ _ _ _ _ E1 Hx Hρ Hc1 Hnc). apply sem_node_nc.
     Qed.
   End Fixed.
 
@@ -853,12 +786,11 @@ Section Chain.
     gen_branch_step j b prev acts = Ok (defs, c) ->
     (is_async (j_cfg j) = false -> ρ n_inspect = Some (DFn inspect_clo)) ->
     (forall b' e i, prev <> n_ew b' e i) ->
-    (forall d, ρ prev = Some d -> not_clo d) ->
     D (RBlock defs c) ρ =
     let! cp := capture_nodes (snapρ ρ) b t in
     Sem_nodes (is_async (j_cfg j)) (snapρ ρ) cp b t (D (wrap_into_block j (RVar prev)) ρ).
   Proof.
-    intros Hn Hok Hg Hi Hprev Hnc.
+    intros Hn Hok Hg Hi Hprev.
     rewrite (gen_branch_step_is_render j b prev acts t Hn) in Hg.
     pose proof (render_nodes_defs (j_cfg j) b t _ _ _ _ Hg Hok) as Hd. cbn [app] in Hd. subst defs.
     rewrite den_RBlock, execs_nodes_defs. nb.
@@ -873,10 +805,6 @@ Section Chain.
     eapply render_nodes_sem; eauto.
     - apply chain_env_ext; assumption.
     - intros k Hin. apply lookup_cap_in. rewrite Hk. exact Hin.
-    - rewrite Hs. unfold wrap_into_block. destruct (is_async (j_cfg j)).
-      + rewrite den_RAsyncMove. constructor. exact I.
-      + rewrite den_RBlock. cbn [execs]. nb. rewrite den_RVar.
-        destruct (ρ prev) as [d|] eqn:E; constructor. eapply Hnc; eauto.
   Qed.
 End Chain.
 
